@@ -2,5 +2,26 @@
 
 package go9p
 
+import (
+	"os"
+	"time"
+)
+
 // VerifOmode2uflags exposes the open-flag translation of the Unix file server.
 func VerifOmode2uflags(mode uint8) int { return omode2uflags(mode) }
+
+// VerifDir2Npmode exposes the translation of a file's mode bits into the 9P mode word and the
+// qid type.
+func VerifDir2Npmode(mode os.FileMode, dotu bool) (uint32, uint8) {
+	fi := verifFileInfo{mode}
+	return dir2Npmode(fi, dotu), dir2QidType(fi)
+}
+
+type verifFileInfo struct{ mode os.FileMode }
+
+func (v verifFileInfo) Name() string       { return "" }
+func (v verifFileInfo) Size() int64        { return 0 }
+func (v verifFileInfo) Mode() os.FileMode  { return v.mode }
+func (v verifFileInfo) ModTime() time.Time { return time.Time{} }
+func (v verifFileInfo) IsDir() bool        { return v.mode.IsDir() }
+func (v verifFileInfo) Sys() interface{}   { return nil }
